@@ -123,7 +123,10 @@ def gen_disc_cycle_case(rng, cid, dbdir=None):
     if usedb and rng.random() < 0.5: cb.engine(db=dbpath)
     if rng.random() < 0.3:
         l = rng.choice(LEAVES); cb.mutate(l, 1 - cb.ext[l])
-    cb.build(R, mode=rng.choice(["sync", "det"]), seed=rng.randrange(1 << 30), defer=100)
+    # ... or of A / D themselves: everything is up to date, no task is ever created, the SCANS of A and D wait for each other
+    # (S36: the engine only looked for a cycle when tasks were in flight and returned the stored value)
+    second = R if rng.random() < 0.5 else rng.choice([A, D])
+    cb.build(second, mode=rng.choice(["sync", "det"]), seed=rng.randrange(1 << 30), defer=100)
     cb.end()
     return cb
 
